@@ -1184,7 +1184,7 @@ func (fr *Frame) eventAsserts(event string, st *State, pos token.Pos) {
 		return
 	}
 	for _, a := range fx.contract.Asserts {
-		if strings.HasPrefix(a.Anchor, "call:") || !globMatch(a.Anchor, event) {
+		if strings.HasPrefix(a.Anchor, "call:") || strings.HasPrefix(a.Anchor, "store:") || !globMatch(a.Anchor, event) {
 			continue
 		}
 		fx.anchorHit(a.Anchor)
@@ -1203,5 +1203,33 @@ func (fr *Frame) eventAsserts(event string, st *State, pos token.Pos) {
 			kind = kind[:i]
 		}
 		fx.oblige(st, "assert", label+"@"+kind, g, pos)
+	}
+}
+
+
+// storeAsserts checks `assert @store:<field-key-glob> expr` clauses at a field store; `stored` is the value being
+// written and `target` the object whose field is written (both typed).
+func (fr *Frame) storeAsserts(event string, st *State, pos token.Pos, blk *ssa.BasicBlock, stored, target SVal) {
+	fx := fr.fx
+	for _, a := range fx.contract.Asserts {
+		if !strings.HasPrefix(a.Anchor, "store:") || !globMatch(a.Anchor, event) {
+			continue
+		}
+		fx.anchorHit(a.Anchor)
+		env := fr.specEnv(st, blk, nil)
+		fr.atInside = true
+		env.vars["stored"] = stored
+		env.vars["target"] = target
+		g, err := env.evalGoal(a.Clause.Expr)
+		fr.atInside = false
+		if err != nil {
+			fx.unsupported = append(fx.unsupported, fmt.Sprintf("assert @%s: %v", a.Anchor, err))
+			continue
+		}
+		label := a.Clause.Label
+		if label == "" {
+			label = "assert"
+		}
+		fx.oblige(st, "assert", label+"@store", g, pos)
 	}
 }
